@@ -139,6 +139,16 @@ func (cf *convFunc) scanArm(arm *convArm, node ast.Node, sv, ret types.Object, f
 				}
 			}
 		case *ast.ReturnStmt:
+			if len(x.Results) == 1 {
+				if tv, ok := info.Types[x.Results[0]]; ok {
+					if _, isTuple := tv.Type.(*types.Tuple); isTuple {
+						// `return helper(v)` forwarding both results: the values are the
+						// helper's (added by delegate), the error is forwarded
+						arm.setsErr = true
+						break
+					}
+				}
+			}
 			if len(x.Results) >= 1 {
 				// `return nil, err` of a two-result function is the error path; a
 				// single-result function returning nil produces nil as its value
@@ -219,6 +229,12 @@ func (cf *convFunc) delegate(arm *convArm, n ast.Node, sv types.Object, fo *type
 	arm.rangesV = arm.rangesV || sub.rangesV
 	arm.recurses = arm.recurses || sub.recurses
 	arm.setsErr = arm.setsErr || sub.setsErr
+	if _, isTuple := info.TypeOf(call).(*types.Tuple); isTuple {
+		arm.results = append(arm.results, sub.results...)
+		for o, m := range sub.makes {
+			arm.makes[o] = m
+		}
+	}
 	fresh := len(sub.results) > 0
 	for _, r := range sub.results {
 		if id, ok := ast.Unparen(r).(*ast.Ident); ok {
